@@ -127,9 +127,54 @@ func canonString(s string) string {
 
 var stepMu sync.Mutex // the Stepper and its flags are process-wide
 
+// shared base environment for engines that run very many tiny cases (e=child): each case is
+// evaluated in its own child scope of one loaded environment
+var (
+	sharedEnv  EnvType
+	sharedCase *evalCase
+)
+
+func childEnv(ec *evalCase) (EnvType, error) {
+	if sharedEnv == nil {
+		holder := &evalCase{}
+		sharedCase = holder
+		e := env.NewEnv()
+		if err := nscore.Load(e); err != nil {
+			return nil, err
+		}
+		if err := nsconcurrent.Load(e); err != nil {
+			return nil, err
+		}
+		if err := nscoreextended.Load(e); err != nil {
+			return nil, err
+		}
+		call.CallOverrideFN(e, "trace!", func(a MalType) (MalType, error) {
+			sharedCase.trace = append(sharedCase.trace, a)
+			return a, nil
+		})
+		call.CallOverrideFN(e, "depth!", func() (MalType, error) {
+			sharedCase.marks = append(sharedCase.marks, evalFrames()-sharedCase.base)
+			return nil, nil
+		})
+		sharedEnv = e
+	}
+	sharedCase = ec
+	return env.NewSubordinateEnv(sharedEnv), nil
+}
+
 func runProgram(ast MalType, cancelAt int, script string, names []string) string {
+	return runProgramIn(ast, cancelAt, script, names, false)
+}
+
+func runProgramIn(ast MalType, cancelAt int, script string, names []string, child bool) string {
 	ec := &evalCase{}
-	e, err := freshEnv(ec)
+	var e EnvType
+	var err error
+	if child {
+		e, err = childEnv(ec)
+	} else {
+		e, err = freshEnv(ec)
+	}
 	if err != nil {
 		return "setup-error " + oneLine(err.Error())
 	}
@@ -138,6 +183,7 @@ func runProgram(ast MalType, cancelAt int, script string, names []string) string
 	if script != "-" {
 		stepMu.Lock()
 		defer stepMu.Unlock()
+		lisp.ResetStepperFlags()
 		i := 0
 		lisp.Stepper = func(a MalType, ns EnvType) debuggertypes.Command {
 			calls = append(calls, render(a))
@@ -209,7 +255,11 @@ func initPayload() string {
 	return strings.Join(parts, " | ")
 }
 
-// request payload: c=<n|-> s=<script|-> n=<names,|-> | <ast>
+// request payload: c=<n|-> s=<script|-> n=<names,|-> [e=child] | <ast>
+func evalPayloadChild(ast MalType) string {
+	return "c=- s=- n=- e=child | " + render(ast)
+}
+
 func evalPayload(cancelAt int, script string, names []string, ast MalType) string {
 	c := "-"
 	if cancelAt >= 0 {
@@ -262,7 +312,7 @@ func (e *evalEngine) run(payload string) string {
 	if err != nil {
 		return "bad-case"
 	}
-	return runProgram(ast, cancelAt, script, names)
+	return runProgramIn(ast, cancelAt, script, names, strings.Contains(strings.SplitN(payload, " | ", 2)[0], "e=child"))
 }
 
 func (e *evalEngine) classify(payload, obs string) string {
